@@ -89,7 +89,7 @@ PROPS = {
     "C24": dict(level="exploration", parts=[dict(engine="e3", quick=1200, thorough=30000)],
                 text="Threads create inputs, tracked structs (through queries on distinct keys) and interned values concurrently while handles are cloned and dropped; ids of inputs pairwise distinct, tracked-struct ids distinct per (creator, ident), every id reads back the fields it was created with.",
                 note="Page recycling is exercised through clone/drop of handles; the small-page knob is not built."),
-    "C22": dict(level="fault_enumeration", parts=[dict(engine="e1", quick=500, thorough=10000), dict(engine="e3", quick=800, thorough=20000)],
+    "C22": dict(level="fault_enumeration", parts=[dict(engine="e1", quick=100, thorough=6000), dict(engine="e3", quick=500, thorough=20000)],
                 text="Fault enumeration (E1): every generated base history is first run fault-free to count user callbacks by class (body op, V::eq, V::hash, cycle_fn, cycle_initial/cycle_result, event callback); it is then re-run with a panic injected at every callback of the rare classes and a sample of body ops. Oracle: the panic reaches the caller of that step, the step is retried (after a new revision for poisoned cycle members) and every later result = reference; a process abort (double panic) is reported from the worker's seed file. Concurrent part (E3): a panic at a random callback while other threads request the same or dependent nodes: waiters get PropagatedPanic or a correct value, never hang.",
                 note="One genuine defect was repaired (fix: commit f6eb44f), one is recorded (known-findings.txt: stale-output deletion interrupted by an event-callback panic)."),
     "C26": dict(level="exploration", parts=[dict(engine="e1p", quick=6000, thorough=100000)],
